@@ -3,6 +3,9 @@
 A case is a program over histogram registers:
 
     ["new", r, cap]  ["upd", r, value, count]  ["add", a, b]  ["merge", a, b]
+    ["add", a, b, form]   (the same addition written another way: form in ADD_FORMS — `a += b`, `operator.iadd`,
+                           `operator.add`, `a.__add__(b)`, `sum([b], a)`, `functools.reduce(operator.add, [a, b])`;
+                           the model's operation is the same "add": one clause, every spelling)
     ["bulk", r, [values...], "f8"|"i8"]  ["dl", r, s]   (s := load(**r.dump()))
     ["ld2", r, s, t]   (d := r.dump(); s := load(**d); t := load(**d) — one dump loaded twice)
     ["updl", r, value, count]   (update of the object that was the LEFT operand of the last `+`/merge on r: on the
@@ -475,6 +478,86 @@ def vshow(x):
     return str(q)
 
 
+# Every way the unchanged tree lets a caller write "+ of independently built histograms".  All of them resolve to
+# Distogram.__add__ (the class defines neither __iadd__ nor __radd__: `a += b` falls back to __add__; `sum(parts)`
+# WITHOUT a start value is `0 + part` and raises TypeError on the unchanged tree, so it is not a form of the operation).
+# The bare `merge(a, b)` is a different, documented operation ("merge" op, bounds within the true range only).
+ADD_FORMS = ("iadd", "op.iadd", "op.add", "dunder", "sum", "reduce")
+
+
+def do_add(left, right, form):
+    import functools
+    import operator
+
+    if form is None:
+        return left + right
+    if form == "iadd":
+        acc = left
+        acc += right
+        return acc
+    if form == "op.iadd":
+        return operator.iadd(left, right)
+    if form == "op.add":
+        return operator.add(left, right)
+    if form == "dunder":
+        return left.__add__(right)
+    if form == "sum":
+        return sum([right], left)
+    if form == "reduce":
+        return functools.reduce(operator.add, [left, right])
+    raise InfraError("bad form of + %r" % (form,))
+
+
+JSON_DIFFERS = "dumpload: the histogram loaded back from dumps() (the JSON text of dump()) differs from the dumped one"
+
+
+def json_carried(x):
+    """The number JSON text carries for a stored number: an integer exactly, anything else as the float64 it is (or, for
+    a numpy.float128 centre that dump() made, the float64 nearest to it — JSON has no wider number; recorded as a hit)."""
+    import numpy
+
+    if isinstance(x, (int, numpy.integer)) and not isinstance(x, (bool, numpy.bool_)):
+        return Fraction(int(x))
+    return Fraction(float(x))
+
+
+def json_route(D, h, hits):
+    """The TEXT route of persistence: h.dumps() -> JSON -> load().  Called right after dump() (so dumps()' own dump()
+    changes nothing any more).  Returns (clause, detail) or None."""
+    import orjson
+
+    before = (native_bins(h), h.min, h.max)
+    try:
+        text = h.dumps()
+        d = orjson.loads(text)
+        g = D.load([tuple(b) for b in d["bins"]], d["min"], d["max"])
+    except Exception as e:
+        return "dumpload: dumps() -> JSON -> load() raised " + type(e).__name__, {"error": type(e).__name__, "message": str(e)[:200]}
+    after = (native_bins(h), h.min, h.max)
+    dd = native_diff(before[0], after[0])
+    if dd is None and (native_val_diff(before[1], after[1]) or native_val_diff(before[2], after[2])):
+        dd = {"min": native_val_diff(before[1], after[1]), "max": native_val_diff(before[2], after[2])}
+    if dd is not None:
+        return "dumpload: dumps() changed the histogram it dumped", dd
+    for tn in sorted(set(type(x).__name__ for x in (h.min, h.max))):
+        hits.append("dl:json-route bound class = " + tn)
+    if any(vexact(v) != json_carried(v) for v, _ in before[0]):
+        hits.append("dl:json-route centre that float64 cannot represent (carried as the nearest float64)")
+    if len(g.bins) != len(before[0]):
+        return JSON_DIFFERS, {"bins": [len(before[0]), len(g.bins)], "text": text[:300].decode("ascii", "replace")}
+    for i, ((v1, f1), (v2, f2)) in enumerate(zip(before[0], g.bins)):
+        if isinstance(f2, bool) or json_carried(f1) != vexact(f2):
+            return JSON_DIFFERS, {"at": i, "counts": [vshow(f1), vshow(f2)]}
+        if isinstance(v2, bool) or json_carried(v1) != vexact(v2):
+            return JSON_DIFFERS, {"at": i, "centres": [vshow(v1), vshow(v2)], "stored_as": type(v1).__name__}
+    for name, x, y in (("min", before[1], g.min), ("max", before[2], g.max)):
+        if y is None or isinstance(y, bool) or json_carried(x) != vexact(y):
+            return JSON_DIFFERS, {name: [vshow(x), vshow(y)], "stored_as": type(x).__name__,
+                                  "text": text[-120:].decode("ascii", "replace")}
+    hits.append("dl:json-route judged")
+    return None
+
+
 class Ghost:
     """The left operand of a `+` / merge that returned a *different* object: a second live histogram.  It is either
     left unchanged by the addition or it is the sum — judged against both ledgers, must satisfy one."""
@@ -557,11 +640,13 @@ def run_impl(case, keep=False):
                     g.snap = None
                     ctx_hits.append("updl:left-operand-is-a-second-object")
                 elif k in ("add", "merge"):
-                    _, a, b = op
+                    a, b = op[1], op[2]
+                    form = op[3] if len(op) > 3 else None
                     out.model_ops.append([k, a, b])
                     old, l_before = H[a], L[a].copy()
                     if k == "add":
-                        res = H[a] + H[b]
+                        res = do_add(H[a], H[b], form)
+                        ctx_hits.append("add:form=" + (form or "a + b"))
                     else:
                         res = D.merge(H[a], H[b])
                     H[a] = res
@@ -645,6 +730,11 @@ def run_impl(case, keep=False):
                         if dd is not None and out.fail is None:
                             dd["compared"] = "at full precision"
                             out.fail = ("dumpload: " + what, dd, step)
+                    if mode == "f" and out.fail is None:
+                        # the text route: dumps() -> JSON -> load() must give the same bins and bounds back
+                        jb = json_route(D, H[r], ctx_hits)
+                        if jb is not None:
+                            out.fail = (jb[0], jb[1], step)
                     got_all = [("dumped histogram changed by dump()", snap_impl(mode, H[r]))]
                     for s, h2 in zip(targets, loaded):
                         H[s] = h2
@@ -883,7 +973,9 @@ def valid_case(c):
             if len(op) != 4 or op[1] not in regs or not isinstance(op[3], int) or op[3] < 1 or not _valid_val(c["mode"], op[2]):
                 return False
         elif k in ("add", "merge"):
-            if len(op) != 3 or op[1] not in regs or op[2] not in regs or op[1] == op[2]:
+            if len(op) not in ((3, 4) if k == "add" else (3,)) or op[1] not in regs or op[2] not in regs or op[1] == op[2]:
+                return False
+            if len(op) == 4 and op[3] not in ADD_FORMS:
                 return False
         elif k == "bulk":
             if len(op) != 4 or op[1] not in regs or not isinstance(op[2], list) or not (op[3] in INT_KINDS or op[3] in FLOAT_KINDS):
@@ -1619,6 +1711,49 @@ def py_int_stream_case(ctx):
     return {"mode": "f", "prog": prog, "family": "py-int-stream", "snap_every": 1}
 
 
+def spell(ctx, c):
+    """Every `+` of a generated program is written in one of the forms the unchanged tree supports (ADD_FORMS) about
+    half of the time — the same operation of the model, the same clauses."""
+    rng = ctx.rng
+    prog = []
+    for op in c["prog"]:
+        if op[0] == "add" and len(op) == 3 and rng.random() < 0.5:
+            op = list(op) + [rng.choice(ADD_FORMS)]
+        prog.append(op)
+    c = dict(c)
+    c["prog"] = prog
+    return c
+
+
+def compressed_operand_case(ctx, mode=None):
+    """`+` in every spelling with a RIGHT operand that has been compressed (more distinct values than its limit, so its
+    true minimum / maximum is no longer a bin centre of its own) and reaches beyond the accumulator's range on one or
+    both sides; then the sum is used again (another part folded in, an update, dump/load).  The sum's bounds must be
+    the exact extremes of everything inserted — replaying the operand's bin centres alone cannot give them."""
+    rng = ctx.rng
+    mode = mode or ("f" if rng.random() < 0.6 else "q")
+    fam = rng.choice(["dense", "negative", "integral", "sparse", "grid", "wide"])
+    gv = (lambda: gen_value(rng, fam)) if mode == "f" else (lambda: gen_qvalue(rng, fam))
+    prog = [["new", 0, gen_cap(rng)]]
+    for _ in range(rng.randint(0 if rng.random() < 0.1 else 1, 8)):
+        prog.append(["upd", 0, gv(), gen_count(rng)])
+    nxt = 1
+    for _ in range(rng.randint(1, 4)):
+        capb = rng.randint(2, 5)
+        prog.append(["new", nxt, capb])
+        for _ in range(capb + rng.randint(1, 6)):
+            prog.append(["upd", nxt, gv(), gen_count(rng)])
+        prog.append(["add", 0, nxt, rng.choice(ADD_FORMS)] if rng.random() < 0.85 else ["add", 0, nxt])
+        r = rng.random()
+        if r < 0.3:
+            prog.append(["upd", 0, gv(), 1])
+        elif r < 0.4:
+            prog.append(["dl", 0, nxt + 1])
+            nxt += 1
+        nxt += 1
+    return {"mode": mode, "prog": prog, "family": "compressed-operand:" + fam, "snap_every": 1 if len(prog) <= 30 else 5}
+
+
 def small_exhaustive(ctx):
     """All update histories of length <= L over a tiny value alphabet, caps 2..3, exact mode."""
     import itertools
@@ -1633,6 +1768,22 @@ def small_exhaustive(ctx):
 
 
 BOUNDARY = [
+    # every spelling of `+` with a compressed right operand that reaches beyond the accumulator on both sides
+    # (its extremes 1 and 51 are merged into the centres 1.5 and 50.5)
+] + [
+    {"mode": m, "family": "boundary", "prog": [["new", 0, 4]] + [["upd", 0, w(v), 1] for v in (10, 11, 12, 13)] + [["new", 1, 3]]
+     + [["upd", 1, w(v), 1] for v in (1, 2, 30, 50, 51)] + [["add", 0, 1, form], ["upd", 0, w(20), 1]]}
+    for form in ADD_FORMS for m, w in (("f", float), ("q", int))
+] + [
+    # the text route of dump/load after a bulk load above the threshold of every element type (the bounds are then the
+    # array's own scalars, or float64 for float16 / float32 arrays), at values that are not short decimals
+    {"mode": "f", "family": "boundary", "prog": [["new", 0, 2], ["bulk", 0, vals, kind], ["dl", 0, 1], ["upd", 1, vals[3], 2]]}
+    for kind, vals in (("f4", [float(__import__("numpy").float32(0.1 + 0.37 * k)) for k in range(13)]),
+                       ("f2", [float(__import__("numpy").float16(0.1 + 0.37 * k)) for k in range(13)]),
+                       ("f8", [0.1 + 0.37 * k for k in range(13)]),
+                       ("i8", [2 ** 62 + 2 ** 12 * k for k in range(13)]), ("u1", [3 * k for k in range(13)]),
+                       ("i2", [-(2 ** 15) + 5 * k for k in range(13)]), ("u4", [2 ** 32 - 1 - 7 * k for k in range(13)]))
+] + [
     # bulk load above the threshold (midpoints), then updates
     {"mode": "f", "family": "boundary", "prog": [["new", 0, 4], ["bulk", 0, [float(v) for v in range(100, 200)], "f8"], ["upd", 0, 150.5, 2]]},
     # dump / load, then updates that must merge the closest pair
@@ -1753,6 +1904,13 @@ def run(ctx):
         "the dump/load clause itself is judged at the full precision of what dump() hands out (exact rationals of the longdouble values)",
         "after every operation every live histogram is judged, not only the result: a histogram the operation did not address must not move "
         "(else it is re-judged against its own ledger), and a left operand that + / merge did not return must be the unchanged operand or the sum",
+        "every spelling of + the unchanged tree supports is an entry of the op alphabet (a += b, operator.iadd, operator.add, a.__add__(b), "
+        "sum([b], a), functools.reduce(operator.add, [a, b])): all resolve to Distogram.__add__ (no __iadd__ / __radd__ in the class: "
+        "Gen.Distogram.classDunders, theorem C13.iadd_is_add) and are held to the exact-bounds clause; sum(parts) without a start value "
+        "raises TypeError on the unchanged tree and is not a form of the operation; the bare merge() stays the documented weaker operation",
+        "dump/load is also judged through the text route in float mode: dumps() -> orjson.loads -> load() must give back every count, "
+        "every bound and every centre as the number stored (integers exactly, floats as their own value; a numpy.float128 centre that "
+        "dump() made is carried as the nearest float64, JSON having no wider number)",
         "order and bounds are judged exactly in floating point as well: the stored centre of a merge is kept within the pair it replaces "
         "(C13.stored_centre_within_pair, finding C13-F06), so they do not depend on rounding; only the mean is compared 'up to rounding'",
     ])
@@ -1793,8 +1951,9 @@ def run(ctx):
         cases = ([random_case(ctx) for _ in range(74)] + [dl_heavy_case(ctx) for _ in range(8)] + [zero_extreme_case(ctx) for _ in range(8)]
                  + [over_limit_load_case(ctx) for _ in range(4)] + [reuse_case(ctx) for _ in range(6)]
                  + [checkpoint_case(ctx) for _ in range(8)] + [tiny_load_case(ctx) for _ in range(5)]
-                 + [typed_bulk_case(ctx) for _ in range(10)] + [py_int_stream_case(ctx) for _ in range(4)])
-        evaluate(ctx, cases)
+                 + [typed_bulk_case(ctx) for _ in range(10)] + [py_int_stream_case(ctx) for _ in range(4)]
+                 + [compressed_operand_case(ctx) for _ in range(8)])
+        evaluate(ctx, [spell(ctx, c) for c in cases])
         done += len(cases)
         if ctx.violations:
             break
@@ -1818,11 +1977,12 @@ def intensify(ctx):
     t_end = ctx.time_left() - 5
     n = 0
     while ctx.time_left() > max(5, t_end - 50) and n < 3000 and not ctx.violations:
-        evaluate(ctx, [random_case(ctx) for _ in range(74)] + [dl_heavy_case(ctx) for _ in range(10)] + [zero_extreme_case(ctx) for _ in range(10)]
+        evaluate(ctx, [spell(ctx, c) for c in [random_case(ctx) for _ in range(74)]] + [dl_heavy_case(ctx) for _ in range(10)] + [zero_extreme_case(ctx) for _ in range(10)]
                  + [over_limit_load_case(ctx) for _ in range(6)] + [reuse_case(ctx) for _ in range(6)]
                  + [checkpoint_case(ctx) for _ in range(8)] + [tiny_load_case(ctx) for _ in range(6)]
-                 + [typed_bulk_case(ctx) for _ in range(14)] + [py_int_stream_case(ctx) for _ in range(6)])
-        n += 140
+                 + [typed_bulk_case(ctx) for _ in range(14)] + [py_int_stream_case(ctx) for _ in range(6)]
+                 + [compressed_operand_case(ctx) for _ in range(10)])
+        n += 150
 
 
 def replay(ctx, case):
